@@ -394,6 +394,6 @@ def validateRor2 (data : Bytes) : Bool :=
 /-- `NewRor2ReaderWithExcludedFields(data, spec, ignore)` + generated `UnmarshalRestLi` -/
 def unmarshalRor2 (c : RCfg) (ty : Ty) (data : Bytes) : Res Value :=
   if !validateRor2 data then .err .syntax
-  else readTy c (2 * data.length + 8) [] ty { rest := data, start := true }
+  else readTy c (3 * data.length + 8) [] ty { rest := data, start := true }
 
 end Restli.Codec
